@@ -9,6 +9,7 @@ import (
 	"sort"
 	"strings"
 	"testing"
+	"time"
 
 	"pgregory.net/rapid"
 
@@ -33,9 +34,9 @@ func TestMain(m *testing.M) {
 			"TxEntry.VLen()/VOff() and ValueRef.Len()/VOff() are physical locators, not content: they are not compared (they are not covered by any digest); the VALUE read through them is compared",
 			"ExportTx returning the digest-only form (values reported as truncated, authenticated value hashes instead) is accepted: no different value is served",
 			"an index that stops before the first unreadable transaction is accepted; what it returns must be a prefix of the committed history of each key",
-			"resource hygiene: values whose recorded length exceeds 16 MiB are not read (ReadValue/ExportTx/Resolve allocate the recorded length: C16's F22) and a compressed-chunk length prefix of 16 MiB or more is not generated (C16's F18); lengths below that bound are",
+			"resource hygiene: a value read that would allocate 16 MiB or more is not made (counted under note:*-skipped-huge-allocation): the recorded length exceeds 16 MiB (ReadValue/ExportTx/Resolve allocate the recorded length: C16's F22), or, in a compressed value log, the harness' mirror of multiapp/singleapp.ReadAt predicts that a garbage chunk-length prefix of 16 MiB or more would be allocated (C16's F18: a vLen larger than the value or a vOff into the middle of a chunk make the reader continue inside compressed data); field-aware edits do not set a chunk-length prefix to 16 MiB or more",
 			"expirations use fixed far-past / far-future instants; an entry that expired in 2001 must never yield a value",
-			"liveness bounds (index wait 90 s, whole case 180 s) are >1000x the normal latency and only guard the 'bounded time' clause",
+			"liveness bounds (index wait 300 s, whole case 600 s) are >3000x the normal latency and only guard the 'bounded time' clause",
 			"every altered copy is first opened with its (unaltered) index, so that all direct reads run in the harness goroutine where a panic is recovered and reported; only then the index is deleted and rebuilt by the indexer goroutine (a panic there kills the process: driver exit 2, attributed by replays/_new/C09-inflight-*.json)",
 			"record-over-record splices (known finding K9): direct reads and the first read of a TxReader may return exactly the substituted committed record, the rebuilt index is not asserted; chained TxReader reads, DualProof verification and everything else still are",
 			"the unaltered copy must read back without any error; there the index is awaited before the reads (a transient 'key not found' of multiapp's chunk cache under concurrent readers makes the indexer retry, which is not this property's business)",
@@ -95,6 +96,16 @@ func runAlteration(p *pristine, alt *alteration, rebuild bool) *result {
 	}
 	setInflight(p.spec, alt, rebuild)
 	defer clearInflight()
+	if os.Getenv("C09_TRACE") != "" && alt != nil { // development aid
+		t0 := time.Now()
+		r := checkAltered(p, dir, alt, rebuild)
+		var cl []string
+		for _, f := range p.lay.touched(alt.edits) {
+			cl = append(cl, fmt.Sprintf("%s(tx%d/%d)", f.class, f.tx, f.entry))
+		}
+		fmt.Printf("TRACE %v %s touched=%v opened=%v errs=%v notes=%v viol=%.100q\n", time.Since(t0), alt, cl, r.opened, r.errs, r.notes, r.violation)
+		return r
+	}
 	return checkAltered(p, dir, alt, rebuild)
 }
 
@@ -136,7 +147,7 @@ func outcomeLabels(e interface{ Label(string) }, r *result, base map[string]int,
 const altsPerStore = 8
 
 func TestCorruptionDetected(t *testing.T) {
-	vk.Check(t, 160, 8000, func(rt *rapid.T, c *vk.Case) {
+	vk.Check(t, 160, 6000, func(rt *rapid.T, c *vk.Case) {
 		spec := genStoreSpec(rt, 25)
 		c.Descf("%s", spec)
 		dir := vk.Dir()
